@@ -85,6 +85,8 @@ Enabled(doc, op) ==
     [] op.k = "SetNodes"      -> Exists(doc, op.rt, op.rp)                       \* record.SetNodes(kids)
     [] op.k = "DocAddNode"    -> TRUE                                           \* doc.AddNode(NewNode(t, v, p))
     [] op.k = "DocDeleteNode" -> Exists(doc, op.rt, op.rp)
+    [] op.k = "DocDeleteStale" -> TRUE       \* doc.DeleteNode(handle of a record removed earlier): not a node of the document
+    [] op.k = "DocDeleteForeign" -> Exists(doc, op.rt, op.rp)   \* doc.DeleteNode(copy of a record, living in another document)
     [] OTHER -> FALSE
 
 Apply(doc, op) ==
@@ -103,6 +105,8 @@ Apply(doc, op) ==
     [] op.k = "SetNodes"      -> [doc EXCEPT ![IdxOf(doc, op.rt, op.rp)].kids = op.kids]
     [] op.k = "DocAddNode"    -> Append(doc, N(op.t, op.v, op.p))
     [] op.k = "DocDeleteNode" -> RemoveAt(doc, IdxOf(doc, op.rt, op.rp))
+    [] op.k = "DocDeleteStale" -> doc
+    [] op.k = "DocDeleteForeign" -> doc
 
 ---------------------------------------------------------------------------
 (* The views - functions of the state.  Individuals and families are named  *)
